@@ -14,8 +14,9 @@ def sh(cmd, cwd=None, timeout=3600):
 
 def main():
     pid, which = sys.argv[1], sys.argv[2]
-    checks = sys.argv[3:] or [pid]
     wt = f"/tmp/wt/{pid}"
+    pid = os.environ.get("SEED_PROPERTY", pid)  # the worktree may have been shared by two properties
+    checks = sys.argv[3:] or [pid]
     seed = f"{wt}/_seed/{which}"
     patch = f"{seed}/patch.diff"
     demo = f"{seed}/demo_test.go"
